@@ -470,25 +470,23 @@ alternative left it), then the head is moved back to `c` and the branch runs fro
 def alt {α : Type} (guard : Cur → Bool) (run : PRes α) (k : Cur → PRes α) (now : Cur) : PRes α :=
   if guard now then orElse run k else k now
 
+/-- store a consumed item in its slot -/
+def liftStep {α : Type} (r : PRes (α × Cur)) (f : α → Mid) : PRes (Cur × Mid) :=
+  match r with
+  | .ok (a, c') => .ok (c', f a)
+  | .err h => .err h
+  | .panic => .panic
+  | .fuel => .fuel
+
 /-- `consume_one`: ordered alternatives with back-off. -/
 def consumeOne (F : EFormat) (c : Cur) (m : Mid) : PRes (Cur × Mid) :=
   if c.startsWith F.spaceParse then .ok (c.skip F.spaceParse, m)
   else
-    let rBudget : PRes (Cur × Mid) := match F.consumeBudget c with
-      | .ok (b, c') => .ok (c', { m with budget := some b })
-      | .err h => .err h | .panic => .panic | .fuel => .fuel
-    let rTerm : PRes (Cur × Mid) := match F.parseTerm (termFuel c) c with
-      | .ok (t, c') => .ok (c', { m with term := some t })
-      | .err h => .err h | .panic => .panic | .fuel => .fuel
-    let rPunct : PRes (Cur × Mid) := match F.consumePunct c with
-      | .ok (p, c') => .ok (c', { m with punct := some p })
-      | .err h => .err h | .panic => .panic | .fuel => .fuel
-    let rStamp : PRes (Cur × Mid) := match F.consumeStamp c with
-      | .ok (s, c') => .ok (c', { m with stamp := some s })
-      | .err h => .err h | .panic => .panic | .fuel => .fuel
-    let rTruth : PRes (Cur × Mid) := match F.consumeTruth c with
-      | .ok (t, c') => .ok (c', { m with truth := some t })
-      | .err h => .err h | .panic => .panic | .fuel => .fuel
+    let rBudget := liftStep (F.consumeBudget c) (fun b => { m with budget := some b })
+    let rTerm := liftStep (F.parseTerm (termFuel c) c) (fun t => { m with term := some t })
+    let rPunct := liftStep (F.consumePunct c) (fun p => { m with punct := some p })
+    let rStamp := liftStep (F.consumeStamp c) (fun s => { m with stamp := some s })
+    let rTruth := liftStep (F.consumeTruth c) (fun t => { m with truth := some t })
     alt (fun now => now.startsWith F.budgetL && m.budget.isNone) rBudget
       (alt (fun _ => m.term.isNone) rTerm
         (alt (fun _ => m.punct.isNone) rPunct
